@@ -332,4 +332,18 @@ example : okVal (newMapXml {} demoConv demoToks .eof) =
       ("c".toList, .str "NaN".toList), ("d".toList, .str [])])]) := by
   decide
 
+/-- why `CastRel` has the disjunct "`s = []` and the leaf stays `\"\"`": the value `""` of an empty
+    element is produced by the EndElement case without calling `cast`; for an arbitrary `Strconv`
+    (here one whose ParseInt accepts the empty text) `cast` of `""` is not `""` -/
+def emptyIntConv : Strconv where
+  parseInt s := if s = [] then some "i:0".toList else none
+  parseUint _ := none
+  parseFloat _ := none
+  lower s := s
+
+example : okVal (newMapXml { cast := intCfg } emptyIntConv [.start [] "a".toList [], .stop [] "a".toList] .eof)
+    = some (.map [("a".toList, .str [])]) := by decide
+example (t : Str) : cast emptyIntConv intCfg [] t = .num "i:0".toList := by
+  rw [cast_key_irrelevant emptyIntConv intCfg [] t [] rfl]; decide
+
 end Mxj.C14
